@@ -56,7 +56,7 @@ func directed() []engsim.Script {
 }
 
 func gen(r *hx.Rand, tier string) []json.RawMessage {
-	n, nbig := 600, 14
+	n, nbig := 450, 12
 	if tier == "thorough" {
 		n, nbig = 9000, 400
 	}
